@@ -172,13 +172,22 @@ def run(ctx, config):
                         continue
                     rr = strip(rhs)
                     good = op == "|=" and is_e(rr, "int") and (rr[1] & 0xffffffff) == EPOLLET
-                    et_guard = False
-                    for cond, truth, b in fn.guards_at(el.bid):
-                        c2, t2 = negate_truth(cond, truth)
-                        if t2 and is_e(c2, "bin") and c2[1] == "&" and is_e(strip(c2[3]), "int") and strip(c2[3])[1] == 0x20:
-                            flds = set(s[2] for s in walk(c2[2]) if is_e(s, "fld"))
-                            if flds == {"event_change.read_change", "event_change.write_change", "event_change.close_change"}:
-                                et_guard = True
+                    # the ET test, in whatever shape it is written (one test of the three bytes or-ed together, three tests joined by ||, nested ifs ...): the store is reachable only
+                    # through the "bit set" edge of a test of (a change byte & EV_CHANGE_ET), all three bytes are tested, and from every such edge the store is passed before epoll_ctl
+                    ALLF = {"event_change.read_change", "event_change.write_change", "event_change.close_change"}
+                    tested, true_edges = set(), set()
+                    for b in fn.branch_blocks():
+                        c2, t2 = negate_truth(b.term["cond"], True)
+                        c2 = strip(c2)
+                        if is_e(c2, "bin") and c2[1] == "&" and is_e(strip(c2[3]), "int") and strip(c2[3])[1] == 0x20:
+                            flds = set(s_[2] for s_ in walk(c2[2]) if is_e(s_, "fld"))
+                            if flds and flds <= ALLF:
+                                tested |= flds
+                                lab = "T" if t2 else "F"
+                                true_edges |= set((b.id, s_) for s_, l_ in b.succ if l_ == lab)
+                    only_via = el.bid not in fn.reach_blocks(fn.entry, avoid_edges=true_edges)
+                    always_then = all(fn.path_avoiding((s_, -1), lambda x: x is pc, lambda x: x is el) is None for _, s_ in true_edges)
+                    et_guard = tested == ALLF and bool(true_edges) and only_via and always_then
                     r_use.inst("et", {"site": el.where(), "store": show(el.e), "guarded_by_EV_CHANGE_ET_of_all_three": et_guard})
                     if not (good and et_guard):
                         r_use.bad("K6:epoll_apply_one_change:events-modified", el.where(), fn.name,
